@@ -169,6 +169,6 @@ func TestC10DirectConnection(t *testing.T) {
 		t.Skip()
 	}
 
-	kit.SetChecks(40_000, 300_000)
+	kit.SetChecks(25_000, 300_000)
 	rapid.Check(t, func(rt *rapid.T) { run(rt, genC10(rt)) })
 }
